@@ -920,7 +920,11 @@ TERMINATION_EXCEPTIONS = {
 }
 
 
-def _exception_premise(f, loop) -> bool:
+def _takes_shape1(node) -> bool:
+    return any(isinstance(x, ast.Subscript) and isinstance(x.value, ast.Attribute) and x.value.attr == "shape" and isinstance(x.slice, ast.Constant) and x.slice.value == 1 for x in ast.walk(node))
+
+
+def _exception_premise(f, loop, prog=None) -> bool:
     """The reason of the frozen exception is checked, not trusted: every path from a push-back (`<lit>.back(...)`)
     inside the loop body back to the loop head passes through the statement that takes `.shape[1]` of the collected
     coefficients (the one that raises for an empty block).  A `continue` / early branch between the two leaves a
@@ -929,7 +933,14 @@ def _exception_premise(f, loop) -> bool:
 
     cfg = cfg_of(f)
     backs = [st for st in ast.walk(loop) if isinstance(st, ast.Expr) and isinstance(st.value, ast.Call) and isinstance(st.value.func, ast.Attribute) and st.value.func.attr == "back"]
-    raising = [st for st in ast.walk(loop) if isinstance(st, ast.stmt) and not isinstance(st, (ast.While, ast.For, ast.If, ast.Try, ast.With)) and any(isinstance(x, ast.Subscript) and isinstance(x.value, ast.Attribute) and x.value.attr == "shape" and isinstance(x.slice, ast.Constant) and x.slice.value == 1 for x in ast.walk(st))]
+    # ... the statement itself, or a call of a plain helper of the module that takes `.shape[1]` unconditionally at its
+    # top level (the shell builder moved into a helper)
+    helpers = set()
+    for cs in getattr(f, "calls", ()):
+        for g in cs.callees:
+            if g.module is f.module and g.parent is None and any(not isinstance(st, (ast.If, ast.For, ast.While, ast.Try, ast.With)) and _takes_shape1(st) for st in g.body):
+                helpers.add(id(cs.node))
+    raising = [st for st in ast.walk(loop) if isinstance(st, ast.stmt) and not isinstance(st, (ast.While, ast.For, ast.If, ast.Try, ast.With)) and (_takes_shape1(st) or any(isinstance(x, ast.Call) and id(x) in helpers for x in ast.walk(st)))]
     if not backs or not raising:
         return False
     try:
